@@ -154,6 +154,15 @@ def run(tier, v):
             rows[o["id"]] = {"conn": conn, "segs": segs, "out": outs, "isn": s["isn"]}
             f.write(json.dumps({"id": o["id"], "conn": conn, "segs": segs, "out": outs}) + "\n")
     r2 = vlib.tlc("TV_C09", pid=PID, workers=8, env={"TRACE": trace}, timeout=3000, heap="10g")
+
+    if tier == "thorough":
+        def mut(rows):
+            k = next(i for i, r_ in enumerate(rows) if any(x not in (0, "0", None, [], "none") for x in r_["out"]))
+            r_ = json.loads(json.dumps(rows[k]))
+            j = next(i for i, x in enumerate(r_["out"]) if x not in (0, "0", None, [], "none"))
+            r_["out"] = r_["out"][:j] + r_["out"][j + 1:] + [r_["out"][j]] if j + 1 < len(r_["out"]) else [r_["out"][j]] + r_["out"][:j]
+            return rows[:40] + [r_], "one report is attributed to another segment of its connection"
+        v.binding.append(vlib.binding_demo("TV_C09", trace, mut, PID, workers=4, timeout=900, heap="4g"))
     for b in r2.lines.get("BAD", []):
         row = rows[b["id"]]
         v.violation({"pair": scen[b["id"]]["pair"], "initial_sequence_numbers": row["isn"], "connection": row["conn"], "segments_in_arrival_order": row["segs"],
